@@ -9,6 +9,7 @@ package doccomposer
 import (
 	"encoding/json"
 	"fmt"
+	"strconv"
 	"strings"
 
 	jsonpatch "github.com/evanphx/json-patch"
@@ -119,6 +120,10 @@ func applyJSON(doc document.Document, entry interface{}) (result document.Docume
 			return nil, err
 		}
 
+		if err := checkArrayIndexes(docBytes, from, path); err != nil {
+			return nil, err
+		}
+
 		if kind == "copy" {
 			docBytes, err = applyCopy(docBytes, from, path)
 		} else {
@@ -172,6 +177,49 @@ func applyCopy(docBytes []byte, from, path string) ([]byte, error) {
 	}
 
 	return docBytes, nil
+}
+
+// checkArrayIndexes follows the pointers through the document and refuses an array index beyond the end of the
+// array it addresses. RFC 6902 makes that an error for every operation; the JSON patch library, however, grows
+// the array to the index when it is the target of a 'move' or 'copy', so that an index like 2^44 makes the
+// runtime give up with an out-of-memory error that cannot be recovered from.
+func checkArrayIndexes(docBytes []byte, pointers ...string) error {
+	var doc interface{}
+	if err := json.Unmarshal(docBytes, &doc); err != nil {
+		return err
+	}
+
+	for _, pointer := range pointers {
+		current := doc
+
+		tokens := strings.Split(pointer, "/")
+		for _, token := range tokens[1:] {
+			token = strings.NewReplacer("~1", "/", "~0", "~").Replace(token)
+
+			switch container := current.(type) {
+			case map[string]interface{}:
+				current = container[token]
+			case []interface{}:
+				index, err := strconv.Atoi(token)
+				if err != nil || index < 0 || index == len(container) {
+					// not an index, or one that the library handles by itself
+					current = nil
+
+					continue
+				}
+
+				if index > len(container) {
+					return fmt.Errorf("JSON patch: array index %d in '%s' is out of bounds", index, pointer)
+				}
+
+				current = container[index]
+			default:
+				current = nil
+			}
+		}
+	}
+
+	return nil
 }
 
 func checkCopyIntoItself(op map[string]*json.RawMessage) (kind, from, path string, err error) {
